@@ -12,7 +12,11 @@ META = {
         "non-zero reserved block count (floating-point recomputation); 4 KiB / 64bit shapes only in the thorough tier",
         "ext2fs_reserve_super_and_bgd2's composition (real marking + real count) is decided piecewise (reserve_sb with a logging bitmap, "
         "count_used on an 8-bit bit array), not as one query; bigalloc block-0 marking not covered",
-        "res_gdt.c, mkjournal.c, orphan.c, mkquota.c, mk_hugefiles.c, create_inode.c, lib/e2p/feature.c",
+        "journal: the allocator (ext2fs_fallocate), ext2fs_bmap2, inode and block I/O behind write_journal_inode are recording stubs; "
+        "external journal devices (ext2fs_add_journal_device, write_journal_file on a mounted fs), mke2fs figure_journal_size / -J parsing",
+        "orphan file: the real ext2fs_block_iterate3 / extent and indirect mapping code (driver stub), the real allocator (cluster model), "
+        "the real CRC (mixing stub), files of more than 6 blocks, an orphan inode that is not zero on disk",
+        "res_gdt.c ext2fs_create_resize_inode (only ext2fs_list_backups, via C20's harness), mkquota.c, mk_hugefiles.c, create_inode.c, lib/e2p/feature.c",
     ],
 }
 BM_SRC = ["lib/ext2fs/gen_bitmap64.c", "lib/ext2fs/bitops.c", "lib/ext2fs/gen_bitmap.c",
@@ -122,6 +126,27 @@ HARNESSES = [
          backends=["kissat", "default"],
          bound="1..3 groups, inodes per group 8..64, block size 1k/2k/4k x inode size 128/256 (per query), table locations < 2^31 "
                "(disjoint, possibly adjacent), bg_itable_unused / lazy_itable_init / itable_zeroed / gdt_csum symbolic"),
+    dict(name="journal", src="journal.c", extra_src=["lib/ext2fs/blknum.c"],
+         funcs=["ext2fs_add_journal_inode3", "write_journal_inode", "ext2fs_create_journal_superblock2",
+                "get_midpoint_journal_block", "ext2fs_inode_size_set"],
+         configs=[{"LOGBS": 0}, {"LOGBS": 2}],
+         unwind=6, unwindset=["main.%d:17" % i for i in range(1, 8)] + ["ext2fs_fallocate.0:16"],
+         backends=["kissat"],
+         bound="num_journal_blocks, num_fc_blocks < 2^30 symbolic; flags (lazy init, v1 superblock), explicit / default goal, "
+               "extents, fast_commit, pre-existing i_blocks / i_flags, allocator result (i_block[], i_blocks), UUID symbolic; "
+               "1..4 groups of 8192 blocks for the midpoint goal; block size 1 KiB / 4 KiB"),
+    dict(name="journal_params", src="journal_params.c", extra_src=["lib/ext2fs/blknum.c"],
+         funcs=["ext2fs_get_journal_params", "ext2fs_default_journal_size"],
+         configs=[{}], unwind=3, backends=["kissat", "z3"],
+         bound="every block count below 2^48 (journal device: below 2^32), journal_dev and fast_commit symbolic, pairs of sizes for monotonicity"),
+    dict(name="orphan", src="orphan.c", extra_src=["lib/ext2fs/i_block.c", "lib/ext2fs/blknum.c"],
+         funcs=["ext2fs_create_orphan_file", "mkorphan_proc", "ext2fs_do_orphan_file_block_csum", "ext2fs_truncate_orphan_file",
+                "ext2fs_iblk_add_blocks", "ext2fs_iblk_set", "ext2fs_inode_size_set"],
+         configs=[{"RATIO": 4}, {"RATIO": 1}],
+         unwind=10, backends=["kissat", "default"],
+         bound="orphan file of 1..6 blocks (1 KiB), cluster ratio 4 / 1 (per query), 8 clusters with symbolic pre-state, allocator choice "
+               "symbolic (any free cluster), k-th allocation may fail, one optional mapping-metadata slot, extents / metadata_csum / "
+               "huge_file / existing-vs-new orphan inode / old size / csum seed symbolic"),
     dict(name="count_used", src="count_used.c", extra_src=BM_SRC,
          funcs=["ext2fs_count_used_blocks", "ext2fs_find_first_set_generic_bmap",
                 "ext2fs_find_first_zero_generic_bmap", "ba_find_first_set", "ba_find_first_zero"],
